@@ -119,6 +119,51 @@ pub fn run(args: &[String]) -> String {
             }
             "HOLDS bound: 11 pending-bit counts x 3 bit patterns x 7 prefix states x 4 probe bytes x every operation (2 bits, 2048 words, 256 bytes, clear, 372 key events, 2 modes)".into()
         }
+        // soak: long monotonous histories that trip narrow counters (u8 / u16) hidden in decoder state
+        "soak" => {
+            let r = std::panic::catch_unwind(|| {
+                let mut kb = Keyboard::new(ScancodeSet2::new(), RecordingLayout, HandleControl::MapLettersToUnicode);
+                let mut kb1 = Keyboard::new(ScancodeSet1::new(), RecordingLayout, HandleControl::Ignore);
+                for (_name, k) in KEYCODES {
+                    for st in [KeyState::Down, KeyState::Up, KeyState::SingleShot] {
+                        for _ in 0..70_000u32 {
+                            std::hint::black_box(kb.process_keyevent(std::hint::black_box(KeyEvent::new(*k, st))));
+                        }
+                    }
+                }
+                for b in [0x1Cu8, 0xF0, 0xE0, 0xE1, 0x00, 0xAA, 0xFA, 0x83, 0x9C, 0xFF] {
+                    for _ in 0..70_000u32 {
+                        let _ = std::hint::black_box(kb.add_byte(std::hint::black_box(b)));
+                        let _ = std::hint::black_box(kb1.add_byte(std::hint::black_box(b)));
+                    }
+                }
+                for w in [0x402u16, 0x7FF, 0x000, 0x401] {
+                    for _ in 0..70_000u32 {
+                        let _ = std::hint::black_box(kb.add_word(std::hint::black_box(w)));
+                    }
+                }
+                for pat in [0u32, 1, 2] {
+                    for i in 0..800_000u32 {
+                        let bit = match pat { 0 => false, 1 => true, _ => i % 3 == 0 };
+                        let _ = std::hint::black_box(kb.add_bit(std::hint::black_box(bit)));
+                        if i % 100_003 == 0 {
+                            kb.clear();
+                        }
+                    }
+                }
+                for i in 0..70_000u32 {
+                    kb.set_ctrl_handling(if i % 2 == 0 { HandleControl::Ignore } else { HandleControl::MapLettersToUnicode });
+                }
+                std::hint::black_box(kb.get_modifiers().clone());
+            });
+            match r {
+                Ok(()) => "HOLDS bound: 70,000 repetitions of every key event, 10 bytes, 4 words, 3 x 800,000 bits, mode changes (no panic)".into(),
+                Err(e) => {
+                    let msg = if let Some(s) = e.downcast_ref::<&str>() { s.to_string() } else if let Some(s) = e.downcast_ref::<String>() { s.clone() } else { "panic".to_string() };
+                    format!("FAILS soak PANIC: {}", msg)
+                }
+            }
+        }
         // every layout object x key x modifier set x mode returns normally: complete for the layout part of C08
         "total" => {
             for layout in 0..X_NLAYOUTS {
